@@ -505,6 +505,7 @@ def _zip_factories(typ):
         ("z_own", "bare", lambda t: acc(t, "own")),
         ("z_even", "bare", lambda t: acc(t, "bare", keep=0)),
         ("z_same", "bare", lambda t: acc(t, "same")),
+        ("z_raw", "bare", lambda t: acc(t, "raw")),
         ("z_map_tuple", "tuple", lambda t: (M._add100, acc(t, "own"))),
     ]
     if typ == "fc":
